@@ -37,7 +37,7 @@ import (
 )
 
 type c15Step struct {
-	Kind    string `json:"kind"` // open bad data rst ping settings ack h wu prio trailers
+	Kind    string `json:"kind"` // open bad data rst ping settings ack h wu prio trailers goaway shutdown
 	K       int    `json:"k,omitempty"`
 	V       uint32 `json:"v,omitempty"`
 	Op      int    `json:"op,omitempty"`
@@ -118,6 +118,7 @@ func c15Gen(t *rapid.T) c15Case {
 		"open", "open", "open", "open", "open", "open", "bad", "bad", "bad",
 		"data", "data", "rst", "rst", "rst", "rst", "ping", "ping", "settings", "settings", "ack",
 		"h", "h", "h", "h", "h", "h", "h", "h", "wu", "wu", "prio", "trailers",
+		"goaway", "shutdown",
 	}
 	step := rapid.Custom(func(t *rapid.T) c15Step {
 		s := c15Step{Kind: rapid.SampledFrom(kinds).Draw(t, "kind")}
@@ -147,7 +148,7 @@ func c15Gen(t *rapid.T) c15Case {
 			s.V = rapid.SampledFrom([]uint32{0, 1, 100, 4096, 16384, 65535, 1 << 20}).Draw(t, "val")
 		case "h":
 			s.K = k.Draw(t, "k")
-			s.Op = rapid.SampledFrom([]int{0, 1, 1, 2, 2, 2, 3, 4}).Draw(t, "hop")
+			s.Op = rapid.SampledFrom([]int{0, 1, 1, 2, 2, 2, 3, 4, 5}).Draw(t, "hop")
 			s.V = rapid.SampledFrom([]uint32{0, 1, 100, 5000, 70000}).Draw(t, "n")
 		case "wu":
 			s.K = k.Draw(t, "k")
@@ -161,6 +162,8 @@ func c15Gen(t *rapid.T) c15Case {
 		case "trailers":
 			s.K = k.Draw(t, "k")
 			s.End = rapid.IntRange(0, 4).Draw(t, "noend") != 0
+		case "goaway":
+			s.V = rapid.SampledFrom([]uint32{0, 0, 0, 2, 8}).Draw(t, "code")
 		}
 		return s
 	})
@@ -243,6 +246,10 @@ func (h *c15Handler) ServeHTTP(w http.ResponseWriter, req *http.Request) {
 				req.Body.Read(buf)
 			case 4:
 				panic(http.ErrAbortHandler)
+			case 5: // response asking to close the connection: graceful shutdown
+				w.Header().Set("Connection", "close")
+				w.WriteHeader(200)
+				w.(http.Flusher).Flush()
 			}
 		case <-h.quit:
 			return
@@ -300,6 +307,9 @@ func c15Run(c c15Case, r *vp.Rec) error {
 	}
 	var pending []pendOpen
 	nOver, nResetRunning, nResetQueued := 0, 0, 0
+	graceful, lastID := false, uint32(0) // GOAWAY(NO_ERROR) seen, its LastStreamID
+	nPingGraceful, nGraceWait := 0, 0
+	ignored := func(x *c15Stream) bool { return graceful && x.id > lastID }
 
 	hviol := func() error {
 		h.mu.Lock()
@@ -315,7 +325,7 @@ func c15Run(c c15Case, r *vp.Rec) error {
 
 	// drain reads every frame the server has produced (waiting for quiescence) and
 	// then evaluates the clauses that are decided at quiescence.
-	drain := func() error {
+	readAll := func() error {
 		for !connDead {
 			f, err := s.read()
 			if err != nil {
@@ -362,6 +372,9 @@ func c15Run(c c15Case, r *vp.Rec) error {
 					return fmt.Errorf("PING ACK with data %#x matches no outstanding PING (outstanding: %#x)", d, pings)
 				}
 				pings = append(pings[:found], pings[found+1:]...)
+				if graceful {
+					nPingGraceful++
+				}
 			case *MetaHeadersFrame, *DataFrame:
 				id := f.Header().StreamID
 				x := byID[id]
@@ -397,11 +410,39 @@ func c15Run(c c15Case, r *vp.Rec) error {
 					x.srvCode = f.ErrCode
 				}
 			case *GoAwayFrame:
-				connDead = true
+				if f.ErrCode == ErrCodeNo {
+					// graceful shutdown (RFC 9113 6.8): the connection keeps serving the
+					// streams up to LastStreamID; newer ones are ignored
+					if !graceful {
+						graceful, lastID = true, f.LastStreamID
+					}
+				} else {
+					connDead = true
+				}
 			}
+		}
+		return nil
+	}
+	drain := func() error {
+		if err := readAll(); err != nil {
+			return err
 		}
 		if err := hviol(); err != nil {
 			return err
+		}
+		if !connDead && graceful && (len(pings) != 0 || settingsAcked != settingsSent) {
+			// After a graceful GOAWAY the server may be on its way out without saying so
+			// (a later connection error only changes its internal GOAWAY code; it then
+			// drops frames and closes within goAwayTimeout = 1 s). Only a connection that
+			// really closes is released from acknowledging.
+			time.Sleep(5 * time.Second)
+			synctest.Wait()
+			if err := readAll(); err != nil {
+				return err
+			}
+			if !connDead {
+				nGraceWait++
+			}
 		}
 		if connDead {
 			pending = nil
@@ -419,9 +460,12 @@ func c15Run(c c15Case, r *vp.Rec) error {
 				return fmt.Errorf("server runs %d handlers (white-box), advertised SETTINGS_MAX_CONCURRENT_STREAMS=%d", cur, limit)
 			}
 			for _, p := range pending {
+				if ignored(p.y) {
+					continue // opened after the server's graceful GOAWAY: ignored (RFC 9113 6.8)
+				}
 				certain := int64(0)
 				for _, x := range p.cand {
-					if !x.srvReset && !x.srvEnded && !x.cliReset {
+					if !x.srvReset && !x.srvEnded && !x.cliReset && !ignored(x) {
 						certain++
 					}
 				}
@@ -568,6 +612,11 @@ func c15Run(c c15Case, r *vp.Rec) error {
 			}
 		case "ack":
 			s.fr.WriteSettingsAck()
+		case "goaway": // client GOAWAY: the server starts a graceful shutdown
+			s.fr.WriteGoAway(0, ErrCode(st.V), nil)
+		case "shutdown": // server-initiated graceful shutdown (as http.Server.Shutdown does)
+			s.sc.VPSrvStartGracefulShutdown()
+			synctest.Wait()
 		case "h":
 			if nplans == 0 {
 				continue
@@ -630,6 +679,16 @@ func c15Run(c c15Case, r *vp.Rec) error {
 	if err := hviol(); err != nil {
 		return err
 	}
+	if graceful && !connDead {
+		// A server in graceful shutdown may be about to close (all streams done, or a
+		// silent switch to an error shutdown, see drain): responses are owed only by a
+		// connection that is still up after its close timer would have fired.
+		time.Sleep(5 * time.Second)
+		synctest.Wait()
+		if err := drain(); err != nil {
+			return err
+		}
+	}
 	h.mu.Lock()
 	started := append([]int(nil), h.started...)
 	h.mu.Unlock()
@@ -647,7 +706,7 @@ func c15Run(c c15Case, r *vp.Rec) error {
 		if len(x.status) == 3 && x.status[0] != '4' {
 			return fmt.Errorf("malformed request (%s) on stream %d was answered with status %s", c15BadNames[x.bad], x.id, x.status)
 		}
-		if connDead || x.touched {
+		if connDead || x.touched || ignored(x) {
 			continue
 		}
 		switch {
@@ -674,6 +733,15 @@ func c15Run(c c15Case, r *vp.Rec) error {
 	}
 	if nOver > 0 {
 		r.Class("over-limit-refused")
+	}
+	if graceful {
+		r.Class("graceful-goaway")
+	}
+	if nPingGraceful > 0 {
+		r.Class("ping-acked-after-graceful-goaway")
+	}
+	if nGraceWait > 0 {
+		r.Class("waited-after-graceful-goaway")
 	}
 	if nResetRunning > 0 {
 		r.Class("reset-running-handler")
